@@ -171,6 +171,10 @@ def baseline(names):
 def run_case(item):
     """item = (case, proc).  Returns dict(ok, why, observed)."""
     case, proc = item
+    # "<proc>@reuse": the very same step object has been used before, in another Flow over a package whose resources sit at other
+    # positions (names rotated) - a selector means the same thing every time the step is used, nothing may stick to the object
+    reuse = proc.endswith('@reuse')
+    proc = proc[:-6] if reuse else proc
     from ..common import tuple_source
     names = [name_of(n) for n in case['names']]
     sel = py_selector(case['sel'])
@@ -193,7 +197,16 @@ def run_case(item):
                 got = results_of([load(os.path.join(d, 'datapackage.json'), resources=sel, strip=False)])
                 base = baseline_disk(names)
         else:
-            got = results_of([tuple_source(base_resources(names)), make_step(proc, sel, side)])
+            step = make_step(proc, sel, side)
+            if reuse:
+                other = names[1:] + names[:1] if len(names) > 1 else ['zzz'] + names
+                try:
+                    results_of([tuple_source(base_resources(other)), step])
+                except Exception:
+                    pass            # e.g. concatenate over a selection that is not consecutive there
+                side.names.clear()
+                side.rids.clear()
+            got = results_of([tuple_source(base_resources(names)), step])
     except Timeout:
         return dict(ok=False, why='timeout (60 s) running the step', observed=None)
     except Exception as e:
@@ -378,10 +391,16 @@ def run():
                 if p in SLOW and r.random() > (0.03 if t == 'quick' else 0.05):
                     continue
                 items.append((c, p))
+                if p not in SLOW and c['names'] and r.random() < 0.2:
+                    items.append((c, p + '@reuse'))
         elif c['kind'] == 'delete':
             items.append((c, 'delete_resource'))
+            if c['names'] and r.random() < 0.3:
+                items.append((c, 'delete_resource@reuse'))
         elif c['kind'] == 'concat':
             items.append((c, 'concatenate'))
+            if c['names'] and r.random() < 0.3:
+                items.append((c, 'concatenate@reuse'))
         elif c['kind'] == 'load':
             items.append((c, 'load_tuple'))
             if r.random() < 0.3:
